@@ -50,10 +50,12 @@ static void run_case(long idx)
     for (int rep = 0; rep < 3; rep++) {
         size_t n; uint8_t* x;
         switch (rep) { case 0: n = 1 + vr_u(&r, 3000); break; case 1: n = pick_size(&r, g_maxSize); break; default: n = (size_t)vr_range(&r, 100, 300000); }
-        int istyle = (int)vr_u(&r, 5); if (feat[0] && vr_chance(&r, 1, 2)) istyle = 4;
+        int istyle = (int)vr_u(&r, 5); if (feat[0] && vr_chance(&r, 1, 2)) istyle = 4; if (formatted && vr_chance(&r, 1, 6)) istyle = 5;
         if (istyle == 4) n = (size_t)vr_range(&r, 120000, 140000) + (vr_chance(&r, 1, 3) ? 131072 : 0);
+        if (istyle == 5) n = (size_t)(131072 * vr_range(&r, 1, 3)) + 2000 + vr_u(&r, 20000);     /* 1..3 incompressible (raw) first blocks, then matches reaching far back into the dictionary */
         x = (uint8_t*)malloc(n + 8);
         switch (istyle) {
+            case 5: { size_t const rawLen = (n / 131072) * 131072; vr_fill(&r, x, n); size_t pos = rawLen + vr_u(&r, 500); while (pos + 40 < n && dl > 64) { size_t const cl = V_MIN((size_t)(16 + vr_u(&r, 1500)), V_MIN(n - pos, dl / 2)); size_t const from = vr_u64(&r, dl - cl); memcpy(x + pos, dict + from, cl); pos += cl + vr_u(&r, 300); } break; }
             case 4: { /* few sequences, one far match: incompressible bytes, then a chunk of dictionary content near the end of the (first) block:
                        * its offset is about the block position + the distance to the dictionary chunk, i.e. it needs the high offset codes */
                 vr_fill(&r, x, n); if (dl > 64) { size_t const cl = V_MIN((size_t)(64 + vr_u(&r, 2000)), dl / 2); size_t const from = vr_u64(&r, dl - cl); size_t const at = n - cl - vr_u(&r, 5000) % (n - cl); memcpy(x + at, dict + from, cl); } break; } case 0: for (size_t i = 0; i < n; i++) x[i] = dl ? dict[(dl - 1) - ((n - 1 - i) % dl)] : 0; break;                 /* replays the dictionary tail */
@@ -61,8 +63,9 @@ static void run_case(long idx)
             case 2: for (size_t i = 0; i < n; i++) x[i] = (uint8_t)(200 + vr_u(&r, 56)); break;                                                        /* high-byte alphabet */
             default: gen_data(&r, x, n, (int)vr_u(&r, DF_NB)); }
         size_t const cap = ZSTD_compressBound(n) + 64; uint8_t* dst = (uint8_t*)malloc(cap); uint8_t* out = (uint8_t*)malloc(n + 8);
-        int cm = (int)vr_u(&r, CM_NB); if (accidental && (cm == CM_USINGDICT)) cm = CM_LOAD; int const lvl = (istyle == 4 && vr_chance(&r, 1, 2)) ? (int)vr_range(&r, 1, 5) : (int)vr_range(&r, -2, 19); int const attach = (int)vr_u(&r, 4); int const dds = (int)vr_u(&r, 3) == 0; int const noID = (int)vr_u(&r, 6) == 0;
+        int cm = (int)vr_u(&r, CM_NB); if (accidental && (cm == CM_USINGDICT)) cm = CM_LOAD; int const lvl = (istyle >= 4 && vr_chance(&r, 1, 2)) ? (int)vr_range(&r, 1, 5) : (int)vr_range(&r, -2, 19); int const attach = (int)vr_u(&r, 4); int const dds = (int)vr_u(&r, 3) == 0; int const noID = (int)vr_u(&r, 6) == 0;
         ZSTD_CCtx* c = ZSTD_createCCtx(); size_t cs; ZSTD_CDict* cd2 = NULL; int prefix = 0;
+        int const tcb = (istyle == 5 ? vr_chance(&r, 2, 3) : vr_chance(&r, 1, 5)) ? (int)vr_range(&r, 1340, 9000) : 0; if (tcb) ZSTD_CCtx_setParameter(c, ZSTD_c_targetCBlockSize, tcb);      /* effective for the compress2-based supply modes */
         ZSTD_CCtx_setParameter(c, ZSTD_c_compressionLevel, lvl); ZSTD_CCtx_setParameter(c, ZSTD_c_forceAttachDict, attach); if (dds) ZSTD_CCtx_setParameter(c, ZSTD_c_enableDedicatedDictSearch, 1); if (noID) ZSTD_CCtx_setParameter(c, ZSTD_c_dictIDFlag, 0); ZSTD_CCtx_setParameter(c, ZSTD_c_checksumFlag, (int)vr_u(&r, 2));
         switch (cm) {
         case CM_USINGDICT: cs = ZSTD_compress_usingDict(c, dst, cap, x, n, gd.p, dl, lvl); break;
@@ -72,7 +75,7 @@ static void run_case(long idx)
         case CM_REFCDICT: { size_t e = ZSTD_CCtx_refCDict(c, cd); cs = ZSTD_isError(e) ? e : ZSTD_compress2(c, dst, cap, x, n); break; }
         default: { prefix = 1; size_t e = ZSTD_CCtx_refPrefix_advanced(c, gd.p, dl, dct); cs = ZSTD_isError(e) ? e : ZSTD_compress2(c, dst, cap, x, n); break; }
         }
-        char desc[300]; snprintf(desc, sizeof desc, "dict=%s(len %zu, id %u, %s) cmode=%s level=%d attach=%d dds=%d noID=%d n=%zu", dclass, dl, idD, feat, cm_name[cm], lvl, attach, dds, noID, n);
+        char desc[300]; snprintf(desc, sizeof desc, "dict=%s(len %zu, id %u, %s) cmode=%s level=%d attach=%d dds=%d noID=%d tcb=%d input=%d n=%zu", dclass, dl, idD, feat, cm_name[cm], lvl, attach, dds, noID, tcb, istyle, n);
         v_stat("compressions", 1);
         if (ZSTD_isError(cs)) {
             if (!safetyOnly) v_viol("roundtrip:compression-with-a-loadable-dictionary-fails", "%s: %s", desc, ZSTD_getErrorName(cs));
